@@ -507,7 +507,14 @@ def etEscapeAttr (s : Str) : Str :=
 /-- lxml / libxml2 `xmlEscapeContent`-style text escaping: as above plus CR -> `&#13;` -/
 def lxEscapeText (s : Str) : Str := replaceAll [13] [38, 35, 49, 51, 59] (etEscapeText s)
 
-/-- trigger predicate of F17n: the character data contains U+000D -/
+/-- serialization.py :: serialize_to_xml with `xml.etree.ElementTree` (fixed tree, `fix: fn:serialize writes
+U+000D … as &#13;`): in a copy of the element every U+000D of text and tails is replaced by a mark `k` (a
+private-use character that occurs nowhere in the subtree), the copy goes through ElementTree's serializer, and the
+mark is replaced by the character reference in the output. -/
+def repoEscapeText (k : Nat) (s : Str) : Str :=
+  replaceAll [k] [38, 35, 49, 51, 59] (etEscapeText (replaceAll [13] [k] s))
+
+/-- PINNED-TREE trigger predicate of F17n (fixed): the character data contains U+000D -/
 def hasCR (s : Str) : Bool := s.any (· == 13)
 
 /-! ## json-to-xml / xml-to-json with `escape: true` (string level) -/
